@@ -33,6 +33,8 @@ func init() {
 		},
 		Run: runC05,
 		Mutants: []Mutant{
+			{Name: "put-trusts-a-matching-index-entry", File: "lintcmd/cache/cache.go", Rule: "R5.1", KeyPart: "put::success-only-after-copyFile-ok",
+				Old: "\t// Copy to cached output file (if not already present).\n", New: "\tif old, err := c.get(id); err == nil && old.OutputID == out && old.Size == size {\n\t\treturn out, size, nil\n\t}\n\t// Copy to cached output file (if not already present).\n"},
 			{Name: "index-before-data", File: "lintcmd/cache/cache.go", Rule: "R5.1", KeyPart: "putIndexEntry",
 				Old: "\tif err := c.copyFile(file, out, size); err != nil {\n\t\treturn out, size, err\n\t}\n\n\t// Add to cache index.\n\treturn out, size, c.putIndexEntry(id, out, size, allowVerify)",
 				New: "\tif err := c.putIndexEntry(id, out, size, allowVerify); err != nil {\n\t\treturn out, size, err\n\t}\n\treturn out, size, c.copyFile(file, out, size)"},
@@ -153,6 +155,17 @@ func runC05(c *Ctx) {
 			ok, path := MustPassEdges(put, ci, okEdges)
 			c.Check(FuncKey(put)+"::putIndexEntry-after-copyFile-ok", ci.Pos(), ok,
 				"index entry must be written only on the nil-error edge of copyFile (data before index); path avoiding it: %s", PathString(put, path))
+		}
+		// Put reports success only after the data file was (re)established: every nil-error return of
+		// put lies behind the nil-error edge of copyFile, which verifies or rewrites the content. The
+		// caller opens OutputFile(out) of a successful Put without any further check (R5.6), and data
+		// files are truncated, removed and trimmed independently of index entries — an index entry
+		// alone proves nothing about the data file.
+		errIdx := put.Signature.Results().Len() - 1
+		for i, r := range SuccessReturns(put, errIdx) {
+			ok, path := MustPassEdges(put, r, okEdges)
+			c.Check(FuncKey(put)+"::success-only-after-copyFile-ok#"+itoa(i), r.Pos(), ok,
+				"put must not report success without having passed copyFile's nil-error edge: a matching index entry does not prove that the data file is complete (it may have been truncated or trimmed since), and the caller reads the output file of a successful Put unverified; path: %s", PathString(put, path))
 		}
 		// who may write index entries / data files
 		for _, fn := range c.ModuleFuncs() {
